@@ -275,3 +275,29 @@ def coq_labels(tr):
         elif k == "cancel":
             out.append("LCancel %d" % l[1])
     return out
+
+
+def coq_wlabels(tr):
+    """label stream for the timed layer (Model/RequestW.v): the same labels wrapped in WL, with the clock reading WTick t in
+    front of the two untimed events (a call entering get(), a call leaving it by an exception)"""
+    out = []
+    for l, txt in zip([l for l in tr.log], coq_labels(tr)):
+        if l[0] in ("call", "cancel"):
+            out.append("WTick (%d)" % l[2])
+        out.append("WL (%s)" % txt)
+    return out
+
+
+def struct_ceiling(tr):
+    """the longest time a structure download held the lock in this run (microseconds): the timed layer's parameter cS"""
+    acq, worst, last = {}, 0, 0
+    for l in tr.log:
+        if len(l) > 2 and isinstance(l[2], int):
+            last = max(last, l[2])
+        if l[0] == "acquire" and tr.calls[l[1]]["kind"] == "struct":
+            acq[l[1]] = l[2]
+        elif l[0] in ("release", "cancel") and l[1] in acq:
+            worst = max(worst, l[2] - acq.pop(l[1]))
+    for c, t in acq.items():
+        worst = max(worst, last - t)
+    return worst
